@@ -115,6 +115,24 @@ const SEQ_ALPHA: &[u8] = b"ACGTNacgtn";
 fn gen_head(rng: &mut Rng, idx: usize, tag: u64, binary: bool) -> Vec<u8> {
     // unique id first: r<tag>_<idx>
     let mut h = format!("r{}_{}", tag, idx).into_bytes();
+    if !cfg!(miri) && rng.chance(1, 25) {
+        // a long id (no space) with multi-byte and - where allowed - invalid UTF-8 at varying offsets
+        h.push(b'_');
+        let n = 40 + rng.below(120);
+        while h.len() < n {
+            match rng.below(6) {
+                0 => h.extend_from_slice("\u{e9}".as_bytes()),
+                1 => h.extend_from_slice("\u{4e2d}".as_bytes()),
+                2 if binary => h.push(0xff),
+                3 => h.extend_from_slice("\u{1F600}".as_bytes()),
+                _ => h.push(*rng.pick(b"abcXYZ019_")),
+            }
+        }
+        if rng.chance(1, 2) {
+            h.extend_from_slice(b" desc");
+        }
+        return h;
+    }
     match rng.below(10) {
         0 => {}
         1 => h.extend_from_slice(b" "),
@@ -312,6 +330,206 @@ pub fn wf(rng: &mut Rng, fmt: Fmt, o: &GenOpts) -> (AbsFile, RenderOpts, Vec<u8>
     (abs, ro, bytes)
 }
 
+/// unusual but valid shapes: header longer than the buffer, a record with very many
+/// (also blank) lines, hundreds of blank lines, many tiny records
+pub fn shaped(rng: &mut Rng, fmt: Fmt, tag: u64) -> (Vec<u8>, &'static str) {
+    let crlf = rng.chance(1, 4);
+    let t: &[u8] = if crlf { b"\r\n" } else { b"\n" };
+    let mut out = vec![];
+    let kind = rng.below(4);
+    let n = 1 + rng.below(4);
+    for i in 0..n {
+        let mut head = format!("r{}_{}", tag, i).into_bytes();
+        if kind == 0 {
+            let l = 40 + rng.below(400);
+            if rng.chance(1, 2) {
+                head.push(b' ');
+                head.extend((0..l).map(|k| b"abc >@+xyz"[k % 10]));
+            } else {
+                // long id without a space, multi-byte characters at varying offsets
+                head.push(b'_');
+                let start = head.len();
+                while head.len() < start + l {
+                    match rng.below(5) {
+                        0 => head.extend_from_slice("\u{e9}".as_bytes()),
+                        1 => head.extend_from_slice("\u{4e2d}".as_bytes()),
+                        2 => head.push(0xfe),
+                        _ => head.push(*rng.pick(b"abcXYZ019_")),
+                    }
+                }
+            }
+        }
+        match fmt {
+            Fmt::Fasta => {
+                out.push(b'>');
+                out.extend_from_slice(&head);
+                out.extend_from_slice(t);
+                let nl = match kind {
+                    1 => 200 + rng.below(3000),
+                    2 => 3,
+                    _ => 1 + rng.below(4),
+                };
+                for j in 0..nl {
+                    if kind == 1 && rng.chance(1, 5) {
+                        // blank line inside the record
+                    } else {
+                        let l = if kind == 1 { rng.below(4) } else { rng.below(30) };
+                        out.extend((0..l).map(|k| b"ACGT"[(k + j) % 4]));
+                    }
+                    out.extend_from_slice(t);
+                    if kind == 2 && j == 1 {
+                        for _ in 0..100 + rng.below(400) {
+                            out.extend_from_slice(t);
+                        }
+                    }
+                }
+            }
+            Fmt::Fastq => {
+                let l = match kind {
+                    1 => 500 + rng.below(3000),
+                    _ => rng.below(30),
+                };
+                out.push(b'@');
+                out.extend_from_slice(&head);
+                out.extend_from_slice(t);
+                out.extend((0..l).map(|k| b"ACGT+@"[k % 6]));
+                out.extend_from_slice(t);
+                out.push(b'+');
+                out.extend_from_slice(t);
+                out.extend((0..l).map(|k| b"I@+~!"[k % 5]));
+                out.extend_from_slice(t);
+            }
+        }
+    }
+    if !rng.chance(2, 3) {
+        // no final terminator
+        let cut = t.len();
+        out.truncate(out.len() - cut);
+    }
+    (out, ["shape-long-header", "shape-many-lines", "shape-blank-run", "shape-plain"][kind])
+}
+
+/// input crossing the 64 KiB default buffer: many records, with a structural byte of a
+/// record placed at offset 65536 + delta
+pub fn big64k(rng: &mut Rng, fmt: Fmt, tag: u64) -> Vec<u8> {
+    let mut out = Vec::with_capacity(140_000);
+    let delta: i64 = rng.range(0, 6) as i64 - 3;
+    let target = (65536 + delta) as usize;
+    let total = target + 2000 + rng.below(60_000);
+    let mut i = 0usize;
+    let mut placed = false;
+    while out.len() < total {
+        let head = format!("r{}_{}", tag, i);
+        let mut l = 20 + rng.below(300);
+        // overhead of one single-line record
+        let over = match fmt {
+            Fmt::Fasta => head.len() + 3,
+            Fmt::Fastq => head.len() + 6,
+        };
+        if !placed && out.len() + 800 > target {
+            // choose the length so that the end of this record's (first) sequence line hits the target
+            let base = out.len() + head.len() + 2;
+            if target > base {
+                l = target - base;
+            }
+            placed = true;
+        }
+        match fmt {
+            Fmt::Fasta => {
+                out.push(b'>');
+                out.extend_from_slice(head.as_bytes());
+                out.push(b'\n');
+                out.extend((0..l).map(|k| b"ACGT"[k % 4]));
+                out.push(b'\n');
+            }
+            Fmt::Fastq => {
+                out.push(b'@');
+                out.extend_from_slice(head.as_bytes());
+                out.push(b'\n');
+                out.extend((0..l).map(|k| b"ACGT"[k % 4]));
+                out.extend_from_slice(b"\n+\n");
+                out.extend((0..l).map(|_| b'I'));
+                out.push(b'\n');
+            }
+        }
+        let _ = over;
+        i += 1;
+    }
+    out
+}
+
+/// a record whose extent is a power of two (+-1): with the doubling default policy the
+/// grown buffer is then exactly as long as the record, so its last line end is the last
+/// byte of the full buffer
+pub fn pow2_aligned(rng: &mut Rng, fmt: Fmt, tag: u64) -> Vec<u8> {
+    let k = rng.range(16, 22);
+    let target = ((1usize << k) as i64 + rng.range(0, 2) as i64 - 1) as usize;
+    let mut out = Vec::with_capacity(target + 4096);
+    let n_before = rng.below(4);
+    let mut idx = 0;
+    let mut small = |out: &mut Vec<u8>, idx: &mut usize, rng: &mut Rng| {
+        let l = 1 + rng.below(40);
+        match fmt {
+            Fmt::Fasta => {
+                out.extend_from_slice(format!(">r{}_{}\n", tag, idx).as_bytes());
+                out.extend((0..l).map(|k| b"ACGT"[k % 4]));
+                out.push(b'\n');
+            }
+            Fmt::Fastq => {
+                out.extend_from_slice(format!("@r{}_{}\n", tag, idx).as_bytes());
+                out.extend((0..l).map(|k| b"ACGT"[k % 4]));
+                out.extend_from_slice(b"\n+\n");
+                out.extend((0..l).map(|_| b'I'));
+                out.push(b'\n');
+            }
+        }
+        *idx += 1;
+    };
+    for _ in 0..n_before {
+        small(&mut out, &mut idx, rng);
+    }
+    let head = format!("r{}_{}", tag, idx);
+    idx += 1;
+    match fmt {
+        Fmt::Fasta => {
+            // '>' head LF lines... LF : extent = target, split into lines of 60-5000 bytes
+            let mut left = target - (head.len() + 2);
+            out.push(b'>');
+            out.extend_from_slice(head.as_bytes());
+            out.push(b'\n');
+            let line = rng.range(60, 5000);
+            while left > 0 {
+                let l = (line.min(left) - 1).min(left - 1);
+                out.extend((0..l).map(|k| b"ACGT"[k % 4]));
+                out.push(b'\n');
+                left -= l + 1;
+            }
+        }
+        Fmt::Fastq => {
+            // '@' head LF seq LF '+' LF qual LF : extent = head + 6 + 2 s
+            let fixed = head.len() + 6;
+            let s = (target - fixed) / 2;
+            // an odd remainder goes into the header
+            let pad = target - fixed - 2 * s;
+            out.push(b'@');
+            out.extend_from_slice(head.as_bytes());
+            out.extend((0..pad).map(|_| b'x'));
+            out.push(b'\n');
+            out.extend((0..s).map(|k| b"ACGT"[k % 4]));
+            out.extend_from_slice(b"\n+\n");
+            out.extend((0..s).map(|_| b'I'));
+            out.push(b'\n');
+        }
+    }
+    // the input either ends here or goes on with more records
+    if rng.chance(2, 3) {
+        for _ in 0..1 + rng.below(3) {
+            small(&mut out, &mut idx, rng);
+        }
+    }
+    out
+}
+
 pub const HOSTILE: &[u8] = b"\n\r>@+ A\x00\xff";
 
 pub fn mutate(rng: &mut Rng, data: &mut Vec<u8>) {
@@ -506,6 +724,39 @@ pub fn gen_growing_policy(rng: &mut Rng) -> PolSpec {
     }
 }
 
+/// Policies that grow by a small constant make reading a large record quadratic (every
+/// step reallocates and copies the buffer). That is legitimate behaviour of the crate, but a
+/// monitor with a CPU-time verdict must not generate it: for large inputs only doubling
+/// policies are used.
+pub fn tame_policy(p: &PolSpec, input_len: usize) -> PolSpec {
+    if input_len <= 16_384 {
+        return p.clone();
+    }
+    match p {
+        PolSpec::Std | PolSpec::RefuseAlways => p.clone(),
+        PolSpec::DoubleUntil(t) if *t >= 65536 => p.clone(),
+        PolSpec::DoubleUntilLimited(t, _) if *t >= 65536 => p.clone(),
+        PolSpec::DoubleUntilLimited(_, l) => PolSpec::DoubleUntilLimited(1 << 20, (*l).max(1 << 30)),
+        PolSpec::RefuseFirst(n, inner) => PolSpec::RefuseFirst(*n, Box::new(tame_policy(inner, input_len))),
+        _ => PolSpec::Std,
+    }
+}
+
+pub fn tame(cfg: &mut Config, input_len: usize) {
+    cfg.policy = tame_policy(&cfg.policy, input_len);
+    if input_len > 16_384 {
+        // one byte per read call is only slow, not wrong, but keep big cases cheap
+        if matches!(cfg.chunking, Chunking::OneByte | Chunking::Fixed(2)) {
+            cfg.chunking = Chunking::Fixed(4096);
+        }
+        if let Chunking::Seeded(s, k) = cfg.chunking {
+            if k < 64 {
+                cfg.chunking = Chunking::Seeded(s, 4096);
+            }
+        }
+    }
+}
+
 pub fn gen_chunking(rng: &mut Rng) -> Chunking {
     match rng.below(7) {
         0 | 1 => Chunking::Whole,
@@ -531,6 +782,15 @@ pub fn gen_config(rng: &mut Rng, len: usize, extents: &[usize]) -> Config {
         policy: gen_growing_policy(rng),
         chunking: gen_chunking(rng),
         interrupts: gen_interrupts(rng),
+    }
+}
+
+/// hex of small inputs only (large ones are reproduced from seed, shard and index)
+pub fn hex_limited(b: &[u8]) -> String {
+    if b.len() <= 4096 {
+        hex(b)
+    } else {
+        format!("<{} bytes: regenerate with --only>", b.len())
     }
 }
 
